@@ -86,6 +86,7 @@ type Contract struct {
 	Claims             map[string]bool // if set: only these obligation kinds are generated (the others are listed as not claimed)
 	AssumeCalleeFrames bool            // havoc callees are assumed not to write caller-visible memory (listed in the evidence)
 	MathInt            bool            // + and - on values of type int are not wrapped at 64 bits (assumption listed in the evidence)
+	Modular            bool            // used by contract even from harnesses that inline their callees
 	CheckAlias         bool            // emit alias obligations on append into non-fresh spare capacity (C09/C10)
 	IsIface            bool            // interface-level contract: <Iface>.<Method>
 	InlineAll          bool            // harness: same-package callees are inlined instead of used by contract
@@ -263,6 +264,8 @@ func (ss *SpecSet) parseSpec(text, path, pkgPath string) error {
 			cur.AssumeCalleeFrames = true
 		case "math-int":
 			cur.MathInt = true
+		case "modular":
+			cur.Modular = true
 		case "no-alias-writes":
 			cur.CheckAlias = true
 		case "spec-only":
